@@ -9,7 +9,8 @@ def sh(cmd):
     return subprocess.run(cmd, shell=True, text=True, stdout=subprocess.PIPE, stderr=subprocess.STDOUT)
 if not os.path.exists(WT):
     print(sh("git -C /repo worktree add -q --detach %s HEAD" % WT).stdout)
-sh("git -C %s checkout -q --detach $(git -C /repo rev-parse HEAD); git -C %s checkout -- . ; git -C %s clean -fdq" % (WT, WT, WT))
+BASE = os.environ.get("EVAL_BASE") or "$(git -C /repo rev-parse HEAD)"   # EVAL_BASE: the commit the change was written against, if not HEAD
+sh("git -C %s checkout -q -f --detach %s; git -C %s checkout -- . ; git -C %s clean -fdq" % (WT, BASE, WT, WT))
 patch, prop = sys.argv[1], sys.argv[2]
 r = sh("git -C %s apply %s" % (WT, os.path.abspath(patch)))
 if r.returncode != 0:
